@@ -19,6 +19,7 @@ package main
 
 import (
 	"fmt"
+	"os"
 	"strconv"
 	"strings"
 
@@ -339,4 +340,22 @@ func c01StaticCheck(c *Ctx, cases []c01StaticCase, stream string, reported map[s
 			}
 		}
 	}
+}
+
+// C01CG: debugging entry: print the real call graph rendering and the model's static phase
+// for one program (env C01_MRO).
+func init() {
+	register("C01CG", func(c *Ctx) {
+		b, err := os.ReadFile(os.Getenv("C01_MRO"))
+		if err != nil {
+			fatal("%v", err)
+		}
+		prog, cg, err := c01CompileStatic(string(b))
+		fmt.Fprintln(os.Stderr, "err:", err)
+		fmt.Fprintln(os.Stderr, "compiler:", strings.ReplaceAll(cg, " (node ", "\n  (node "))
+		if prog != "" && c.Drv != nil {
+			rep := c.Drv.Ask("C01.static", prog, "-")
+			fmt.Fprintln(os.Stderr, "model:   ", strings.ReplaceAll(rep, " (node ", "\n  (node "))
+		}
+	})
 }
